@@ -55,7 +55,7 @@ Ltac step :=
   end.
 (* float predicate / comparison atoms (the abstract variables left by [destruct O], passed by name), innermost first *)
 Ltac has_atom P32 C32 P64 C64 x :=
-  match x with context[P32 _ _] => idtac | context[C32 _ _ _] => idtac | context[P64 _ _] => idtac | context[C64 _ _ _] => idtac end.
+  match x with context[P32 _ _] => idtac | context[C32 _ _ _] => idtac | context[P64 _ _] => idtac | context[C64 _ _ _] => idtac | context[if _ then _ else _] => idtac end.
 Ltac split1 P32 C32 P64 C64 :=
   match goal with
   | |- context[P32 ?p ?x] => tryif has_atom P32 C32 P64 C64 x then fail else case (P32 p x)
@@ -77,11 +77,13 @@ Ltac gen1 P32 C32 P64 C64 :=
   | |- context[P64 ?p ?x] => tryif has_atom P32 C32 P64 C64 x then fail else (let b := fresh "atm" in generalize (P64 p x); intro b)
   | |- context[C64 ?c ?x ?y] => tryif first [has_atom P32 C32 P64 C64 x | has_atom P32 C32 P64 C64 y] then fail else (let b := fresh "atm" in generalize (C64 c x y); intro b)
   end.
-Ltac clear_unused := repeat match goal with H : _ |- _ => clear H end.   (* per-goal cost of case/destruct grows with the context *)
+Ltac clear_unused := repeat match goal with H : ?T |- _ => lazymatch T with (_ = true) => fail | (_ = false) => fail | _ => clear H end end.   (* per-goal cost of case/destruct grows with the context; the literal facts are kept *)
 Ltac destruct_bools := repeat match goal with b : bool |- _ => destruct b end.
 Ltac solve_z P32 C32 P64 C64 CHK unlock lits :=
   vm_compute; try reflexivity; lits; cbv beta iota; try reflexivity; repeat (gen1 P32 C32 P64 C64);
-  unlock; clear_unused; destruct_bools; vm_compute; try reflexivity; repeat (step; vm_compute; try reflexivity).
+  unlock; clear_unused; destruct_bools; vm_compute; try reflexivity; lits; vm_compute; try reflexivity;
+  (* atoms whose argument depended on an earlier atom (sign bit of a comparison mask ...) are now applied to literals or variables *)
+  repeat (gen1 P32 C32 P64 C64); destruct_bools; vm_compute; try reflexivity; repeat (step; vm_compute; try reflexivity).
 
 (* variant for functions dominated by index / enum arithmetic (Euler orders): integer primitives concrete from the start *)
 Ltac solve_zc unlock lits :=
